@@ -191,9 +191,12 @@ func TestC14Steps(t *testing.T) {
 			continue
 		}
 		seen[md] = true
-		for v := 0; v < 3; v++ {
+		for v := 0; v < 4; v++ {
 			acts := []CAct{{Op: "stream", MD: md}, {Op: "unary", B: 51, MD: md}}
 			switch v {
+			case 3: // the caller's deadline (whatever timeout its metadata claims): the server is told by a reset (reason 7)
+				acts = append(acts, CAct{Op: "deliver", Env: &EnvSpec{Call: 0, Hdr: "ok:0", Body: i64(5101), Trl: "none", Guess: true}},
+					CAct{Op: "expire", C: 0}, CAct{Op: "recv", C: 0}, CAct{Op: "expire", C: 1}, CAct{Op: "cancel", C: 0})
 			case 0:
 				acts = append(acts, CAct{Op: "cancel", C: 0}, CAct{Op: "cancel", C: 1})
 			case 1:
@@ -293,6 +296,11 @@ func (g *longRig) echo() *echoImpl {
 		},
 		stream: func(kind string, s grpc.ServerStream) error {
 			l := g.get(mdN(s.Context()))
+			if l != nil && l.outcome == "deadlinemd" {
+				// works until the RPC is over for it (its context: the reset, or the deadline it was given)
+				<-s.Context().Done()
+				return status.FromContextError(s.Context().Err()).Err()
+			}
 			if l != nil && l.outcome == "bigmsg" {
 				// one request, one LARGE response, then the handler waits for the end of the RPC (its context)
 				var m wrapperspb.BytesValue
@@ -425,6 +433,17 @@ func (l *longRPC) run(cc *goat.ClientConn) {
 		ctx, c2 = context.WithTimeout(ctx, time.Hour)
 		defer c2()
 	}
+	if l.outcome == "deadlinemd" {
+		// the caller's metadata carries a grpc-timeout entry of its own (set by hand, or forwarded by a relay from its incoming
+		// metadata) that is LONGER than the context's deadline; it precedes the client's own GRPC-Timeout among the headers
+		// and is the one the server arms: when the call ends by its deadline on the client the server's timer is far away,
+		// only the reset tells the server
+		cur, _ := metadata.FromOutgoingContext(ctx)
+		ctx = metadata.NewOutgoingContext(base, metadata.Join(metadata.MD{"grpc-timeout": {"99999999H"}}, cur))
+		var c2 context.CancelFunc
+		ctx, c2 = context.WithTimeout(ctx, time.Hour)
+		defer c2()
+	}
 	<-l.stage
 	l.started.Store(true)
 	defer l.done.Store(true)
@@ -457,6 +476,11 @@ func (l *longRPC) run(cc *goat.ClientConn) {
 		// opened and given up at once: the opener and the reset reach the server back to back (the driver holds the
 		// client's writes until both are written)
 		l.cancel()
+		drain()
+		return
+	}
+	if l.outcome == "deadlinemd" {
+		// the caller waits for a response that does not come before its deadline
 		drain()
 		return
 	}
@@ -543,7 +567,7 @@ func TestC14Long(t *testing.T) {
 	em.Marker("begin", idx)
 	r := newRand(1401)
 	kinds := []string{"Unary", "Bidi", "CStream", "SStream"}
-	outcomes := []string{"ok", "status", "cancel", "deadline", "reset", "failopen", "sendfail", "srvabort", "cancelnow", "bigmsg"}
+	outcomes := []string{"ok", "status", "cancel", "deadline", "reset", "failopen", "sendfail", "srvabort", "cancelnow", "bigmsg", "deadlinemd"}
 	var samples []string
 	hist := map[string]int{}
 	maxInflight, idleSamples, maxSrv, srvLeaked, nbig := 0, 0, 0, 0, 0
@@ -693,6 +717,9 @@ func TestC14Long(t *testing.T) {
 				}
 				if a.outcome == "cancelnow" && a.kind == "Unary" {
 					a.outcome = "cancel"
+				}
+				if a.outcome == "deadlinemd" && a.kind == "Unary" {
+					a.outcome = "deadline"
 				}
 				if a.outcome == "bigmsg" {
 					if a.kind == "Unary" {
